@@ -24,6 +24,12 @@ CLAIMS = {
   design_ref="DESIGN.md 3 (C16)",
   note="Trusted: gocv, go/types, SMT solvers, assumed contracts of sort.Search and slices.BinarySearchFunc; monotone QueueTick/TimeSum streams are preconditions (supplied by C01/C04).",
   technique=TECH),
+ "C19": dict(
+  category="other",
+  text="Contracts proved for all schemas (Require closure of every resolver target; lemma group_exclusive) instantiated on the schema constants extracted from the working tree on every run; well-formedness predicates and lemma hypotheses decided exactly on the constants; groups outside the lemma get a bounded exhaustive reachability stand-in on the real resolver (labelled bounded).",
+  design_ref="DESIGN.md 3 (C19)",
+  note="Trusted: gocv, go/types, SMT solvers, the extraction program (generated, runs the real initialisers), the concrete evaluator for ground instances; mixin schemas referencing Start are recorded known findings.",
+  technique=TECH),
  "C20": dict(
   category="other",
   text="Deductive for the functions listed in the evidence: set/sequence algebra of the state-list helpers (S.Add1/Delete/Delete1/Sub/Shared/Equal/EqualOrder/Has/Unique, SRem, StatesDiff/Shared/Equal, slices helpers, ParseStates/mustParseStates, Machine readers) proved against mathematical specs for all inputs, plus a zero-annotation no-panic sweep (index/slice bounds, nil deref, nil-map write, division, explicit panic) inside every function under contract and copy/freshness postconditions of getters. Level 'other' because totality is claimed only for the swept functions and blocking is outside the verifier.",
